@@ -35,17 +35,19 @@ TINY_DT = 1e-9
 
 
 class Rng(ScriptedRNG):
-    """ScriptedRNG that never runs dry: every Poisson variate is JUMPS_PER_INTERVAL, jump-time uniforms are the generic
-    golden-ratio numbers in (0.05, 0.95); each numpy.random.normal call is recorded (flat) in `normal_calls`."""
+    """ScriptedRNG that never runs dry: every Poisson variate is `jumps` (JUMPS_PER_INTERVAL; 0 = the paths without any jump,
+    which take the simulators' fallback branches), jump-time uniforms are the generic golden-ratio numbers in (0.05, 0.95);
+    each numpy.random.normal call is recorded (flat) in `normal_calls`."""
 
-    def __init__(self):
+    def __init__(self, jumps=JUMPS_PER_INTERVAL):
         super().__init__()
         self.normal_calls = []
+        self.jumps = int(jumps)
 
     def poisson(self, lam=1.0, size=None):
         if size is None:
-            return JUMPS_PER_INTERVAL
-        return np.full(size, JUMPS_PER_INTERVAL, dtype=int)
+            return self.jumps
+        return np.full(size, self.jumps, dtype=int)
 
     def _unit(self, size=None):
         n = self._n(size)
@@ -73,10 +75,14 @@ def _layouts(flat, dim, n, npaths, p, per_path):
     return [flat.reshape(npaths, dim, n)[p], flat.reshape(npaths, n, dim)[p].T]
 
 
-def simulated_brownian_scale(proc, product, dim, rng, npaths=3):
-    """pre_computation + npaths simulated paths of an initialised process under the installed scripted `rng`.
+def simulated_brownian_scale(proc, product, dim, rng, npaths=None):
+    """pre_computation + npaths simulated paths of an initialised process under the installed scripted `rng` (default: 3 paths
+    in dimension one, 2 dim + 1 otherwise: a path may have ONE step only - vanilla product, no jump -, and the fit must be
+    over-determined, or it could not tell the two candidate layouts of the variates apart).
     Returns {"D": (dim, dim) array, "residual": float, "columns": int, "steps": [n per path]} or {"unrecognised": reason}
     (a harness limitation, never a finding)."""
+    if npaths is None:
+        npaths = 3 if dim == 1 else 2 * dim + 1
     rng.normal_calls = []
     proc.pre_computation(npaths, product)
     pre = list(rng.normal_calls)
@@ -109,7 +115,7 @@ def simulated_brownian_scale(proc, product, dim, rng, npaths=3):
     best = None
     for lay in (0, 1):
         y, z = np.hstack(ys[lay]), np.hstack(zs[lay])
-        if y.shape[1] < dim:
+        if y.shape[1] < dim + (dim > 1):
             return {"unrecognised": f"{y.shape[1]} usable steps for dimension {dim}"}
         sol = np.linalg.lstsq(z.T, y.T, rcond=None)[0].T  # y = D z
         res = float(np.max(np.abs(y - sol @ z))) if y.size else 0.0
